@@ -81,6 +81,14 @@ T["T11"] = dict(   # a reversible objective reaction that has to run backwards o
     objectives=[{"DM_B": 1}])
 
 
+T["T12"] = dict(   # reactions written backwards: lower bounds larger in magnitude than every upper bound; cycle R2/R3 and R1/R2
+    mets={"A": "c", "B": "c"},
+    rxns=[("SRC", {"A": -1}, (-20, 0), ""), ("R1", {"B": -1, "A": 1}, (-20, 0), ""),
+          ("R2", {"A": -1, "B": 1}, (0, 10), ""), ("R3", {"B": -1, "A": 1}, (0, 10), ""),
+          ("DM_B", {"B": 1}, (-20, 0), "")],
+    objectives=[{"DM_B": -1}])
+
+
 def build(tid, coef=None):
     """build the template through the public API (add_metabolites on detached reactions,
     add_reactions).  coef: optional {(rid, mid): value} overriding stoichiometry."""
